@@ -45,6 +45,11 @@ REQUIRED_THEOREMS = [
     "SpecVerif.Props.C11.owner_covers_of_silent_plain",
     "SpecVerif.Props.C11.middle_override_not_covered",
     "SpecVerif.Props.C11.middle_override_maps",
+    "SpecVerif.Props.C11.set_keeps_own_value",
+    "SpecVerif.Props.C11.set_keeps_own_value_of_acyclic",
+    "SpecVerif.Props.C11.set_drops_own_value_of_full_cycle",
+    "SpecVerif.Props.C11.invalidate_terminates",
+    "SpecVerif.Props.C11.invalidate_order_irrelevant",
 ]
 RULE = (
     "case = dependency graph over <= 4 names (kinds: managed attr with/without default, list attr, unmanaged attr "
@@ -80,20 +85,26 @@ OPEN_STATEMENTS = [
 ]
 KF_MATCHER = "plain_subclass_dependant"
 KF2_MATCHER = "plain_middle_override"
+KF3_MATCHER = "own_value_dropped_by_full_cycle"
 
 _REGISTERED = False
 _REGISTERED2 = False
 _SUPPRESSED = {"cases": 0, "sample": None}
+_REGISTERED3 = False
 _SUPPRESSED2 = {"cases": 0, "sample": None}
+_SUPPRESSED3 = {"cases": 0, "sample": None}
 _NS = {}
 
 
 def setup():
-    global _REGISTERED, _REGISTERED2
+    global _REGISTERED, _REGISTERED2, _REGISTERED3
     import common
 
     _REGISTERED = any(
         k.get("matcher") == KF_MATCHER and k.get("status") == "open" for k in common.load_known(PID)
+    )
+    _REGISTERED3 = any(
+        k.get("matcher") == KF3_MATCHER and k.get("status") == "open" for k in common.load_known(PID)
     )
     _REGISTERED2 = any(
         k.get("matcher") == KF2_MATCHER and k.get("status") == "open" for k in common.load_known(PID)
@@ -328,11 +339,16 @@ def resettable(m):
 
 
 def well_formed(case):
-    mem = members_of(case)
-    r = reach(case)
-    for n, m in mem.items():
-        if resettable(m) and n in r.get(n, ()):
-            return False
+    """no dependency cycle through a defaulted attribute -- neither in the declared graph nor in the one the library
+    uses where the two differ (KF-C11-plain-middle-override: the inherited invalidated_by instead of the property's own)"""
+    views = [members_of(case)]
+    if middle_override_names(case):
+        views.append(_effective(case, False))
+    for mem in views:
+        r = reach(case, mem)
+        for n, m in mem.items():
+            if resettable(m) and n in r.get(n, ()):
+                return False
     return True
 
 
@@ -765,6 +781,7 @@ def _read_on_clone(ctx, obj, n):
 def oracle_raw(case):
     viol = []
     anc = ancestors(case)
+    rch = reach(case)
     mem = members_of(case)
     derived = [n for n, m in mem.items() if m.get("inv")]
     props = [n for n, m in mem.items() if m["kind"] == "prop"]
@@ -815,6 +832,19 @@ def oracle_raw(case):
                 for n, v in recv_before.items():
                     if recv_after.get(n, "<gone>") != v:
                         viol.append(f"{label}: copy-on-write call changed the receiver's dep=n{n}")
+            # the value an assignment stores survives the invalidation round it triggers itself
+            assigned = None
+            if op[0] in ("set", "with", "withu"):
+                assigned = (op[1], parse_val(op[2]))
+            elif op[0] == "upd" and len(op[1]) == 1:
+                assigned = (op[1][0][0], parse_val(op[1][0][1]))
+            if assigned is not None and res_after.get(assigned[0], "<gone>") != assigned[1]:
+                t0 = assigned[0]
+                holders = sorted(y for y in rch.get(t0, ()) if y != t0 and t0 in rch.get(y, ()) and y in recv_before)
+                viol.append(
+                    f"{label}: own value dep=n{t0} was assigned {assigned[1]} but holds {res_after.get(t0, '<gone>')} "
+                    f"afterwards cycle-holders={holders}"
+                )
             for t in derived:
                 if t in targets:
                     continue
@@ -853,7 +883,7 @@ def oracle_raw(case):
     return viol[:12]
 
 
-def plain_subclass_dependant(case, violation):
+def _plain_subclass_core(case, violation):
     """KF-C11-plain-subclass: every complaint is about a dependant declared in an undecorated subclass
     of the last spec class, or about a name downstream of one whose mutated dependencies (`via=`) reach
     it only through such a dependant (the library's map has no entry for it, so the chain is cut there)."""
@@ -906,7 +936,7 @@ def middle_override_names(case):
     return out
 
 
-def plain_middle_override(case, violation):
+def _plain_middle_core(case, violation):
     """KF-C11-plain-middle-override: the instance's class is a spec class, and every complaint is about a name whose
     invalidated_by the library takes from the spec base although an undecorated class in between overrides the name
     with a property that declares its own (or about a name downstream of one), and is not explained by a dependency
@@ -943,11 +973,71 @@ def plain_middle_override(case, violation):
     return True
 
 
-KNOWN_MATCHERS = {KF_MATCHER: plain_subclass_dependant, KF2_MATCHER: plain_middle_override}
+def _own_line_ok(case, line):
+    """KF-C11-cycle-drops-own-value: the complaint is that the value just assigned to t is gone, t lies on a dependency
+    cycle of the declared graph, and another name of such a cycle held a value before the call (its delattr succeeds,
+    re-enters invalidate_attrs with a fresh _visited and comes back to t)."""
+    import re
+
+    m = re.search(r"own value dep=n(\d+) was assigned .* cycle-holders=\[([0-9, ]*)\]", line)
+    if not m:
+        return False
+    t = int(m.group(1))
+    hs = [int(x) for x in m.group(2).split(",") if x.strip()]
+    r = reach(case)
+    if not hs or t not in r.get(t, ()):
+        return False
+    return all(y != t and y in r.get(t, ()) and t in r.get(y, ()) for y in hs)
+
+
+def _split_own(violation):
+    own = [ln for ln in violation if "own value dep=" in ln]
+    return own, [ln for ln in violation if "own value dep=" not in ln]
+
+
+def _accept(case, violation, me):
+    """One case can show several open findings at once: every line must be explained by one of them, and at least
+    one line by the finding `me` whose matcher is asking."""
+    if violation == ["correspondence"]:
+        return False
+    own, rest = _split_own(violation)
+    if any(not _own_line_ok(case, ln) for ln in own):
+        return False
+    sub = bool(rest) and _plain_subclass_core(case, rest)
+    mid = bool(rest) and not sub and _plain_middle_core(case, rest)
+    if rest and not (sub or mid):
+        return False
+    return {"own": bool(own), "sub": sub, "mid": mid}[me]
+
+
+def plain_subclass_dependant(case, violation):
+    return _accept(case, violation, "sub")
+
+
+def plain_middle_override(case, violation):
+    return _accept(case, violation, "mid")
+
+
+def own_value_dropped_by_full_cycle(case, violation):
+    return _accept(case, violation, "own")
+
+
+KNOWN_MATCHERS = {
+    KF_MATCHER: plain_subclass_dependant,
+    KF2_MATCHER: plain_middle_override,
+    KF3_MATCHER: own_value_dropped_by_full_cycle,
+}
 
 
 def oracle(case):
     v = oracle_raw(case)
+    if v and not _REGISTERED3:
+        own, rest = _split_own(v)
+        if own and all(_own_line_ok(case, ln) for ln in own):
+            _SUPPRESSED3["cases"] += 1
+            if _SUPPRESSED3["sample"] is None:
+                _SUPPRESSED3["sample"] = {"case": case, "violation": own[:3]}
+            v = rest
     if v and not _REGISTERED and plain_subclass_dependant(case, v):
         _SUPPRESSED["cases"] += 1
         if _SUPPRESSED["sample"] is None:
@@ -1677,12 +1767,15 @@ def extra(tier, rng):
             "middle_override_finding_registered": _REGISTERED2,
             "middle_override_violations_suppressed_until_registered": _SUPPRESSED2["cases"],
             "middle_override_sample": _SUPPRESSED2["sample"],
+            "cycle_own_value_finding_registered": _REGISTERED3,
+            "cycle_own_value_violations_suppressed_until_registered": _SUPPRESSED3["cases"],
+            "cycle_own_value_sample": _SUPPRESSED3["sample"],
         },
     }
 
 
 MANIFEST_ENTRY = {
     "level_text": "Lean 4 proof, about a hand-written executable model of bootstrap's assembly of metadata.attrs along the class hierarchy (which declaration of a redeclared name counts) / invalidation_map / invalidate_attrs / mutate_attr / __delattr__ / spec_property and every mutation entry point, that (a) invalidate_attrs terminates within a cubic fuel bound on every table with no dependency cycle through a defaulted attribute and clears exactly the transitive dependants of the mutated name, whatever the iteration order and cache state; (b) the invariant Fresh (every cached, non-overridden slot equals its getter on the cache-free state; every invalidated_by attribute is at its default if a dependency was assigned later) holds after construction and after every history of reads, overrides and mutations through every entry point, in place or on a copy; (c) the next read after a dependency change recomputes, unrelated and failed mutations discard nothing; (d) the invalidation map is exactly what the effective declarations say: a property declared by the instance's own spec class with dependencies of its own is invalidated by exactly those whatever the ancestors declared, a re-defaulted attribute keeps the inherited invalidated_by. The model is tied to /repo on every run by executing the same histories on rendered spec classes and on the model and comparing value read, getter-call log and every instance __dict__ after each step; an independent oracle recomputes each getter on a cache-free clone.",
-    "level_note": "Trusted: Lean kernel; axioms propext/Classical.choice/Quot.sound; the hand-written model and the harness. Assumes pure getters that read only declared (transitive) dependencies and no cycle through a defaulted attribute. OPEN: dependants declared in an undecorated subclass are never invalidated (KF-C11-plain-subclass): proved only under OwnerCoversDependants, with a decided counter-witness for the full statement; a property that an undecorated class BETWEEN two spec classes puts over a managed attribute is invalidated by the inherited instead of its own invalidated_by (KF-C11-plain-middle-override): owner_covers_of_spec_head is proved only under PlainClassesSilent, with the decided counter-witness middle_override_not_covered.",
+    "level_note": "Trusted: Lean kernel; axioms propext/Classical.choice/Quot.sound; the hand-written model and the harness. Assumes pure getters that read only declared (transitive) dependencies and no cycle through a defaulted attribute. OPEN: dependants declared in an undecorated subclass are never invalidated (KF-C11-plain-subclass): proved only under OwnerCoversDependants, with a decided counter-witness for the full statement; a property that an undecorated class BETWEEN two spec classes puts over a managed attribute is invalidated by the inherited instead of its own invalidated_by (KF-C11-plain-middle-override): owner_covers_of_spec_head is proved only under PlainClassesSilent, with the decided counter-witness middle_override_not_covered; a value just assigned to a member of a dependency cycle survives its own invalidation round only if no other member of the cycle holds a value (set_keeps_own_value / set_drops_own_value_of_full_cycle, KF-C11-cycle-drops-own-value).",
     "technique": "Lean 4 invariant proof (all histories) + exact characterisation of the invalidation fixpoint over a hand-written model; differential correspondence against the real library with a getter-call counter",
 }
